@@ -195,6 +195,8 @@ S_FRAME = dict(
     modifies=['self._last_acked_rx_seq', 'ghost.sent'],
 )
 contract(ERTM_M + '._send_s_frame', prop='C08', inline=INLINE_CF, **S_FRAME)
+contract(ERTM_M + '._send_s_frame', key=ERTM_M + '._send_s_frame@callee', **S_FRAME)
+USE_SF = [ERTM_M + '._send_s_frame@callee']
 
 
 # ---------------------------------------------------------------------------
@@ -355,4 +357,100 @@ contract(
     modifies=PO_MOD + ['self._next_tx_seq'],
     uses=USE_PO,
     inline=['EnhancedRetransmissionProcessor._get_next_tx_seq', 'EnhancedRetransmissionProcessor._PendingPdu.*'],
+)
+
+
+# ---------------------------------------------------------------------------
+# _update_ack_seq: exactly (new - last) mod 64 frames leave the window, or nothing
+# ---------------------------------------------------------------------------
+def n_acked(old, new_seq):
+    return (new_seq - old.self._last_acked_tx_seq) % 64
+
+
+def ack_post(self, new_seq, is_poll_response, old, ghost):
+    n = n_acked(old, new_seq)
+    ok = n <= len(old.self._tx_window)
+    # what _process_output then may send: the monitor timer is cleared by a poll response, the window has n more places
+    mon = old.self._monitor_handle is not None and not is_poll_response
+    room = old.self.peer_tx_window_size - (len(old.self._tx_window) - n)
+    np = len(old.self._pending_pdus)
+    m = ite(ok, ite(old.self._remote_is_busy or mon, 0, ite(room < np, room, np)), 0)
+    out = [
+        # an acknowledgement for more frames than are outstanding is ignored: nothing changes
+        implies(not ok, self._last_acked_tx_seq == old.self._last_acked_tx_seq and len(self._tx_window) == len(old.self._tx_window) and (self._monitor_handle is None) == (old.self._monitor_handle is None)),
+        implies(ok, self._last_acked_tx_seq == new_seq),
+        len(self._tx_window) == len(old.self._tx_window) - ite(ok, n, 0) + m,
+        implies(ok and is_poll_response, self._monitor_handle is None),
+        implies(not is_poll_response, (self._monitor_handle is None) == (old.self._monitor_handle is None)),
+        implies(m > 0, self._last_acked_rx_seq == self._req_seq_num),
+        implies(m == 0, self._last_acked_rx_seq == old.self._last_acked_rx_seq),
+    ]
+    for f in FIELDS:
+        # the n oldest unacknowledged frames are forgotten, the m oldest waiting PDUs take their place at the end
+        out.append(col(self._tx_window, f) == col(old.self._tx_window, f)[ite(ok, n, 0):] + col(old.self._pending_pdus, f)[:m])
+        out.append(col(self._pending_pdus, f) == col(old.self._pending_pdus, f)[m:])
+    return out + wf(self, ghost) + [implies(ok, no_stall(self))] + wire(self, old, ghost, m) + [ghost.delivered == old.ghost.delivered]
+
+
+ACK_MOD = PO_MOD + ['self._last_acked_tx_seq', 'self._monitor_handle']
+UPDATE_ACK = dict(
+    params=dict(self=ERTM, new_seq=IntRange(0, 63), is_poll_response=Bool),
+    ghost=GHOST,
+    requires=lambda self, new_seq, ghost: wf(self, ghost) + [seqno(new_seq)],
+    ensures=ack_post,
+    modifies=ACK_MOD,
+)
+contract(ERTM_M + '._update_ack_seq', prop='C08', uses=USE_PO, **UPDATE_ACK)
+contract(ERTM_M + '._update_ack_seq', key=ERTM_M + '._update_ack_seq@callee', **UPDATE_ACK)
+USE_ACK = [ERTM_M + '._update_ack_seq@callee']
+
+
+# ---------------------------------------------------------------------------
+# on_pdu: the receiving side
+# ---------------------------------------------------------------------------
+def rx_unchanged(self, old, ghost):
+    return self._req_seq_num == old.self._req_seq_num and self._in_sdu == old.self._in_sdu and ghost.delivered == old.ghost.delivered
+
+
+def on_pdu_post(self, pdu, old, ghost):
+    i = is_iframe(pdu)
+    in_seq = i and f_tx_seq(pdu) == old.self._req_seq_num
+    sar = f_sar(pdu)
+    last = sar == END or sar == UNSEG
+    data = iframe_data(pdu)
+    sf = f_sfunc(pdu)
+    return [
+        # I-frame with the expected sequence number: the receive sequence number advances by one modulo 64, the data
+        # it carries extends the SDU being reassembled, a complete SDU is handed to the channel exactly once
+        implies(in_seq, self._req_seq_num == (f_tx_seq(pdu) + 1) % 64),
+        implies(in_seq and last, ghost.delivered == old.ghost.delivered + [old.self._in_sdu + data] and self._in_sdu == b''),
+        implies(in_seq and not last, ghost.delivered == old.ghost.delivered and self._in_sdu == old.self._in_sdu + data),
+        # the frame is acknowledged (an I-frame sent meanwhile would have carried the acknowledgement)
+        implies(in_seq and self._req_seq_num != old.self._last_acked_rx_seq and self._req_seq_num != old.self._req_seq_num,
+                len(ghost.sent) >= 1 and ghost.sent[len(ghost.sent) - 1] == sframe_ctrl(RR, 0, self._req_seq_num, 0) and self._last_acked_rx_seq == self._req_seq_num),
+        # any other frame (out of sequence I-frame, S-frame): nothing is delivered, the receive state does not move
+        implies(not in_seq, rx_unchanged(self, old, ghost)),
+        # S-frames: RNR stops the sender, a poll (P=1) is answered with F=1
+        implies(not i, self._remote_is_busy == (sf == RNR)),
+        implies(i, self._remote_is_busy == old.self._remote_is_busy),
+        implies(not i and (sf == RR or sf == RNR) and f_poll(pdu) == 1,
+                len(ghost.sent) >= 1 and ghost.sent[len(ghost.sent) - 1] == sframe_ctrl(RR, 0, self._req_seq_num, 1)),
+    ] + wf(self, ghost) + [
+        # nothing waits while the window has room (a peer that was busy is only served again at the next acknowledgement)
+        implies(not old.self._remote_is_busy and n_acked(old, ite(i, f_req_seq(pdu), at(pdu, 1) % 128)) <= len(old.self._tx_window), no_stall(self)),
+    ]
+
+
+contract(
+    ERTM_M + '.on_pdu',
+    prop='C08',
+    params=dict(self=ERTM, pdu=Bytes),
+    ghost=GHOST,
+    # reserved bits of an S-frame's second octet are zero (Core Vol 3 Part A 3.3.2; bumble's encoder writes req_seq < 64)
+    requires=lambda self, pdu, ghost: wf(self, ghost) + [implies(is_sframe(pdu), at(pdu, 1) < 64)],
+    ensures=on_pdu_post,
+    raises={IndexError: lambda self, pdu, old, ghost: [len(pdu) < 2, rx_unchanged(self, old, ghost)] + wf(self, ghost)},
+    modifies=ACK_MOD + ['self._req_seq_num', 'self._in_sdu', 'self._remote_is_busy', 'ghost.delivered'],
+    uses=USE_ACK + USE_SF,
+    inline=INLINE_CF,
 )
